@@ -140,31 +140,32 @@ CHECKS = {'C10': {'level': 'other',
  'C06': {'level': 'other',
          'engine': 'pyvc',
          'technique': "contracts on the ARC-4 layout arithmetic, on _encode_tuple's first loop (pyvc loop invariants against an independent element-by-element position function, z3) and on the "
-                      'scalar codec helpers uint_set / uint_encode (pyvc, every width x symbolic value; counterexamples replayed on the real functions / spec AVM) + bounded stand-in against the '
-                      'reference codec algosdk.abi (shapes, layout classes, copy matrix, length-prefix boundaries)',
+                      'scalar codec helpers uint_set / uint_encode / Bool.encode (pyvc, every width x symbolic value; counterexamples replayed on the real functions / spec AVM) + bounded stand-in '
+                      'against the reference codec algosdk.abi (shapes, layout classes, copy matrix, length-prefix boundaries)',
          'text': '_bool_sequence_length, _consecutive_thing_num, _bool_aware_static_byte_length and the head-position bookkeeping of _encode_tuple are proved for every type sequence against the '
                  'ARC-4 position function (bool packing included). Type strings, dynamic-ness, static lengths and the bytes produced by set()/encode() are compared with algosdk.abi for generated and '
                  'layout-class shapes with boundary-biased values at versions 5..10, in the main routine and inside subroutines; X.set(another ABI value) for all ordered pairs of 14 types; every '
                  'route by which a dynamic value gets its uint16 length prefix at lengths around 255/256 ... 4000 (bounded). Proved for every supported width and every value: uint_set accepts a '
                  'Python int iff it lies in [0, 2^N) (using the proved contract of Int) and then stores exactly that constant; for an expression value of width < 64 the store is followed by '
-                 'Assert(load < Int(2^N)), for 64 bits by nothing; uint_encode is the last N/8 bytes of itob(value) (setbyte into one zero byte for N = 8). The same cases remain in the bounded '
-                 'stand-in end to end.',
+                 'Assert(load < Int(2^N)), for 64 bits by nothing; uint_encode is the last N/8 bytes of itob(value) (setbyte into one zero byte for N = 8); Bool.encode is setbit(0x00, 0, value). The '
+                 'same cases remain in the bounded stand-in end to end.',
          'note': "trusted: algosdk.abi, the position-function spec, TypeSpec interface contracts for element types. The Expr layer of _encode_tuple's second loop is bounded only; the scalar codec "
                  "contracts summarise the Expr constructors (Int, Seq, Assert, Itob, Suffix, SetByte, <) as constructor terms whose AVM meaning is the fragment catalogue's (C01).",
          'design_ref': 'DESIGN.md 5/C06'},
  'C07': {'level': 'other',
          'engine': 'pyvc',
          'technique': 'contract on the real _index_tuple against the ARC-4 position function (pyvc VCs over arbitrary type sequences and indices, z3/cvc5; callee contracts of the layout helpers '
-                      'shared with C06) and on the scalar decoder uint_decode (every width x every combination of optional start / end / length) + bounded stand-in: decode / element access on '
-                      'generated shapes, values and positions against algosdk.abi on the spec AVM',
+                      'shared with C06) and on the scalar decoders uint_decode and Bool.decode (every width x every combination of optional start / end / length) + bounded stand-in: decode / element '
+                      'access on generated shapes, values and positions against algosdk.abi on the spec AVM',
          'text': 'Proved for every sequence of element types and every index: _index_tuple raises ValueError exactly for an out-of-range index and TypeError exactly for a mismatching output type, '
                  "and otherwise returns decode_bit at the element's ARC-4 bit position (bool), a decode between the uint16 head at the element's head offset and the head of the first following "
                  'dynamic element (dynamic; open-ended iff none follows), or a decode of the window [offset, offset + static length) (static; the abbreviated forms only where they denote that '
-                 'window). uint_decode is proved to store the big-endian read of exactly N/8 bytes (getbyte / extract_uint16/32/64) at the given start index, at 0 when none is given, and btoi of the '
-                 'whole string only for 64 bits without any index. Bounded: for generated type shapes and values every tuple / array position (constant and computed index), get(), length() and the '
-                 'decode-encode round trip are compared with the reference encoding of the component; out-of-range indices must fail. Three classes of non-failing out-of-range array accesses are '
-                 'known findings. Bounded additions: named-tuple fields read by name while several named-tuple types that reuse field names at other positions are alive.',
-         'note': 'array element access (ArrayElement, computed indices), the non-uint scalar decoders (bool, byte strings) and the Expr constructors are bounded only; the contract treats '
+                 'window). Bool.decode is proved to store getbit(encoded, 8 * start) (start = 0 when absent); uint_decode is proved to store the big-endian read of exactly N/8 bytes (getbyte / '
+                 'extract_uint16/32/64) at the given start index, at 0 when none is given, and btoi of the whole string only for 64 bits without any index. Bounded: for generated type shapes and '
+                 'values every tuple / array position (constant and computed index), get(), length() and the decode-encode round trip are compared with the reference encoding of the component; '
+                 'out-of-range indices must fail. Three classes of non-failing out-of-range array accesses are known findings. Bounded additions: named-tuple fields read by name while several '
+                 'named-tuple types that reuse field names at other positions are alive.',
+         'note': 'array element access (ArrayElement, computed indices), the byte-string scalar decoders and the Expr constructors are bounded only; the contract treats '
                  'decode()/decode_bit()/ExtractUint16/Int as pure record constructors.',
          'design_ref': 'DESIGN.md 5/C07, 10.3'},
  'C04': {'level': 'other',
